@@ -100,6 +100,14 @@ func (m *syncModel) check(c *Ctx, res *scnResult) {
 		evIdx = append(evIdx, i)
 	}
 	lines = append(lines, prefix+" dump")
+	// M-Node: the Lean node's answer to every request the scripted node served
+	var nodeIdx []int
+	for i, e := range res.Events {
+		if e.NodeOp != "" {
+			lines = append(lines, e.NodeOp)
+			nodeIdx = append(nodeIdx, i)
+		}
+	}
 	outs, err := m.l.AskBatch(lines)
 	m.nOps += len(lines)
 	if err != nil {
@@ -137,9 +145,18 @@ func (m *syncModel) check(c *Ctx, res *scnResult) {
 		}
 		j++
 	}
+	for k, i := range nodeIdx {
+		got := outs[len(outs)-len(nodeIdx)+k]
+		c.R.TracesValidated++
+		c.R.Count("node-replies-compared", 1)
+		if got != res.Events[i].NodeWant {
+			c.R.Disagree(lib.Disagreement{Case: res.Name, Ops: res.S.Ops(), Op: shorten(res.Events[i].NodeOp), Impl: shorten(res.Events[i].NodeWant), Model: shorten(got)})
+			return
+		}
+	}
 	// final table
 	impl := dumpStr(res.Rows)
-	model := outs[len(outs)-1]
+	model := outs[len(outs)-1-len(nodeIdx)]
 	c.R.TracesValidated++
 	if impl != model {
 		c.R.Disagree(lib.Disagreement{Case: res.Name, Ops: res.S.Ops(), Op: prefix + " dump", Impl: firstDiff(impl, model), Model: firstDiff(model, impl)})
